@@ -206,9 +206,42 @@ def directed_cases(tier):
     # calendar code for its directory names)
     out.append({"threads": 4, "tuples": tuples, "iters": 60000 if tier == "quick" else 300000, "writer": True,
                 "writes": 2500 if tier == "quick" else 10000})
+    # rates whose numerator needs more than 32 bits (5, 8, 10 GS/s ...): the library's arithmetic is exact up to 10^10
+    out.append({"bignum": [1 << 32, (1 << 32) + 1, 5 * 10 ** 9, 8 * 10 ** 9, 10 ** 10]})
     # the calendar: every day from 1970 to 2500 and the turn of every later century up to 9999, at two rates
     out.append({"calendar": [0, (2500 - 1970) * 366]})
     return out
+
+
+def _run_bignum(case, res):
+    n_ev = 0
+    for n in case["bignum"]:
+        for d in (1, 3, 1001):
+            for s_ in (0, 1, 1500000000, 1700000000):
+                for ps in (0, 1, 999, 1000, PS - 1, 333333333333, 500000000000, 999999999000):
+                    ec = -((-(s_ * PS + ps) * n) // (d * PS))
+                    if ec >= 1 << 64 or s_ * n >= 1 << 64:
+                        continue
+                    rc, gc = c_ceil(s_, ps, n, d)
+                    n_ev += 1
+                    if rc != 0 or gc != ec:
+                        res.fail("ceil", "s=%d ps=%d n=%d d=%d got %d expected %d" % (s_, ps, n, d, gc, ec))
+            for k in (1, n - 1, n, n + 1, 12345678901234, (1 << 62) // n * n + 5, (17 * 10 ** 18) // d, 1700000000 * n // d + 7):
+                if k * d >= 1 << 64:
+                    continue
+                es, rem = divmod(k * d, n)
+                eps = rem * PS // n
+                rc, gs, gp = c_floor(k, n, d)
+                n_ev += 1
+                if rc != 0 or (gs, gp) != (es, eps):
+                    res.fail("floor", "k=%d n=%d d=%d got (%d,%d) expected (%d,%d)" % (k, n, d, gs, gp, es, eps))
+                if d * PS >= n:
+                    rc, back = c_ceil(es, eps, n, d)
+                    if back != k:
+                        res.fail("roundtrip", "k=%d n=%d d=%d ceil(floor)=%d" % (k, n, d, back))
+    res.evaluations = n_ev
+    res.nontrivial = True
+    res.cls("numerator-above-2^32")
 
 
 def _run_calendar(case, res):
@@ -325,6 +358,9 @@ def run_case(case):
     if "calendar" in case:
         _run_calendar(case, res)
         return res
+    if "bignum" in case:
+        _run_bignum(case, res)
+        return res
     k, n, d = case["k"], case["n"], case["d"]
     check_tuple(k, n, d, case["s"], case["ps"], res)
     res.nontrivial = nontrivial(k, n, d)
@@ -340,7 +376,7 @@ def run_case(case):
 
 
 def shrink_candidates(case):
-    if "fuzz_hex" in case or "threads" in case or "calendar" in case:
+    if "fuzz_hex" in case or "threads" in case or "calendar" in case or "bignum" in case:
         return
     for key in ("k", "s", "ps", "n", "d"):
         v = case[key]
